@@ -26,7 +26,7 @@ static char vf_cbarg_cookie_;
 #define VF_CBARG ((void *)&vf_cbarg_cookie_)
 
 enum { VF_CB_READ = 1, VF_CB_WRITE = 2, VF_CB_EVENT = 3, VF_CB_DECREF = 4 };
-struct vf_cbrec { int n; int at; short what; int err; int lockdepth; int refcnt; int arg_ok; size_t len_in, len_out, low_r, low_w; /* state at the moment of the call */ };
+struct vf_cbrec { int n; int at; short what; int err; int lockdepth; int refcnt; int arg_ok; size_t len_in, len_out, low_r, low_w; short enabled; int dis_calls; /* state at the moment of the call */ };
 struct vf_evst { int ins; int timer; long tv_sec, tv_usec; int n_add, n_add_tv, n_add_fail, n_del, n_rmt; };
 
 struct vf_bev_ghost {
@@ -54,9 +54,10 @@ struct vf_bev_ghost g_e;
 
 static void vf_bev_ghost_reset(void)
 {
-	int i;
+	/* no loops in this file: units run with a small --unwind because bufferevent.c has a (shallow) recursion through bufferevent_inbuf_wm_check */
+#define VF_EVST_ZERO(e) do { (e).ins = (e).timer = 0; (e).tv_sec = (e).tv_usec = 0; (e).n_add = (e).n_add_tv = (e).n_add_fail = (e).n_del = (e).n_rmt = 0; } while (0)
 	g_e.len_in = g_e.len_out = 0;
-	for (i = 0; i < 3; i++) { g_e.ev[i].ins = g_e.ev[i].timer = 0; g_e.ev[i].tv_sec = g_e.ev[i].tv_usec = 0; g_e.ev[i].n_add = g_e.ev[i].n_add_tv = g_e.ev[i].n_add_fail = g_e.ev[i].n_del = g_e.ev[i].n_rmt = 0; }
+	VF_EVST_ZERO(g_e.ev[0]); VF_EVST_ZERO(g_e.ev[1]); VF_EVST_ZERO(g_e.ev[2]);
 	g_e.event_add_may_fail = g_e.event_del_may_fail = 0;
 	g_e.deferred_queued = g_e.sched_calls = g_e.sched_new = 0;
 	g_e.fin_calls = g_e.fin_ncbs = g_e.fin_lockdepth = g_e.fin_cb_ok = 0;
@@ -65,7 +66,7 @@ static void vf_bev_ghost_reset(void)
 	g_e.en_calls = g_e.dis_calls = g_e.unlink_calls = g_e.adj_calls = g_e.flush_calls = g_e.ctrl_calls = 0;
 	g_e.en_what = g_e.dis_what = 0; g_e.ctrl_op = -1; g_e.en_lockdepth = g_e.dis_lockdepth = 0; g_e.adj_ret = 0;
 	g_e.addcb_calls = g_e.addcb_ok = g_e.setflags_calls = g_e.clearflags_calls = 0;
-#define VF_CBREC_ZERO(r) do { (r).n = (r).at = 0; (r).what = 0; (r).err = 0; (r).lockdepth = 0; (r).refcnt = 0; (r).arg_ok = 0; (r).len_in = (r).len_out = (r).low_r = (r).low_w = 0; } while (0)
+#define VF_CBREC_ZERO(r) do { (r).n = (r).at = 0; (r).what = 0; (r).err = 0; (r).lockdepth = 0; (r).refcnt = 0; (r).arg_ok = 0; (r).len_in = (r).len_out = (r).low_r = (r).low_w = 0; (r).enabled = 0; (r).dis_calls = 0; } while (0)
 	VF_CBREC_ZERO(g_e.rd); VF_CBREC_ZERO(g_e.wr); VF_CBREC_ZERO(g_e.ev0); VF_CBREC_ZERO(g_e.ev1);
 	g_e.nseq = 0; g_e.nev = 0; g_e.user_mutates = 0;
 }
@@ -169,21 +170,21 @@ int event_deferred_cb_schedule_(struct event_base *base, struct event_callback *
 static void bufferevent_finalize_cb_(struct event_callback *evcb, void *arg_);
 int event_callback_finalize_many_(struct event_base *base, int n_cbs, struct event_callback **evcbs, void (*cb)(struct event_callback *, void *))
 {
-	int i;
 	__CPROVER_assert(base == &EVBASE, "finalize_many: on the bufferevent's base");
 	__CPROVER_assert(n_cbs >= 1 && n_cbs <= 16, "finalize_many: 1..MAX_CBS callbacks");
 	g_e.fin_calls++; g_e.fin_ncbs = n_cbs; g_e.fin_lockdepth = VF_BEV_LOCKDEPTH();
 	g_e.fin_cb_ok = (cb == bufferevent_finalize_cb_);
-	for (i = 0; i < 16; i++) {
-		if (i >= n_cbs) break;
-		if (evcbs[i] == &BEV->ev_read.ev_evcallback) g_e.fin_has_read++;
-		else if (evcbs[i] == &BEV->ev_write.ev_evcallback) g_e.fin_has_write++;
-		else if (evcbs[i] == &BEVP.deferred) g_e.fin_has_deferred++;
-		else if (evcbs[i] == &RLIM.refill_bucket_event.ev_evcallback) g_e.fin_has_refill++;
-		else if (evcbs[i] == &INBUF.deferred) g_e.fin_has_inbuf++;
-		else if (evcbs[i] == &OUTBUF.deferred) g_e.fin_has_outbuf++;
-		else __CPROVER_assert(0, "finalize_many: every callback handed over belongs to this bufferevent");
-	}
+#define VF_FIN_ONE(k) do { if ((k) < n_cbs) { \
+		if (evcbs[(k)] == &BEV->ev_read.ev_evcallback) g_e.fin_has_read++; \
+		else if (evcbs[(k)] == &BEV->ev_write.ev_evcallback) g_e.fin_has_write++; \
+		else if (evcbs[(k)] == &BEVP.deferred) g_e.fin_has_deferred++; \
+		else if (evcbs[(k)] == &RLIM.refill_bucket_event.ev_evcallback) g_e.fin_has_refill++; \
+		else if (evcbs[(k)] == &INBUF.deferred) g_e.fin_has_inbuf++; \
+		else if (evcbs[(k)] == &OUTBUF.deferred) g_e.fin_has_outbuf++; \
+		else __CPROVER_assert(0, "finalize_many: every callback handed over belongs to this bufferevent"); \
+	} } while (0)
+	__CPROVER_assert(n_cbs <= 8, "finalize_many: at most 8 callbacks (2 events, deferred, refill, 2 buffer callbacks)");
+	VF_FIN_ONE(0); VF_FIN_ONE(1); VF_FIN_ONE(2); VF_FIN_ONE(3); VF_FIN_ONE(4); VF_FIN_ONE(5); VF_FIN_ONE(6); VF_FIN_ONE(7);
 	return 0;
 }
 
@@ -230,7 +231,7 @@ static void vf_user_action(void)
 	if (c & 8u) { BEV->wm_read.low = vf_choose_size(); BEV->wm_read.high = vf_choose_size(); }   /* bufferevent_setwatermark */
 }
 #define VF_CBREC_FILL(r, what_, arg_) do { (r).n++; (r).at = g_e.nseq; (r).what = (what_); (r).err = errno; (r).lockdepth = VF_BEV_LOCKDEPTH(); (r).refcnt = BEVP.refcnt; (r).arg_ok = ((arg_) == VF_CBARG); \
-	(r).len_in = g_e.len_in; (r).len_out = g_e.len_out; (r).low_r = BEV->wm_read.low; (r).low_w = BEV->wm_write.low; } while (0)
+	(r).len_in = g_e.len_in; (r).len_out = g_e.len_out; (r).low_r = BEV->wm_read.low; (r).low_w = BEV->wm_write.low; (r).enabled = BEV->enabled; (r).dis_calls = g_e.dis_calls; } while (0)
 static void vf_seq_push(int kind, short what, void *arg)
 {
 	g_e.nseq++;
